@@ -113,7 +113,7 @@ def ob_readonly_reads(pi: int) -> bool:
         before = sl.observe(s)
         fsnap = fs.snapshot() if fs else None
     ro = s.read_only()
-    with quiet():
+    with nt(), quiet():          # the pre-state is concrete on this path: the observers run untraced
         seen = sl.observe(ro)
         ok = seen == before
         for k in sl.U:
@@ -211,12 +211,12 @@ def ob_contained(codes: List[int], leading: bool, op: int) -> bool:
     with nt():
         fs = _prestate()
         out0 = _outside(fs)
-    key = ("/" if leading else "") + "/".join([COMP[c] for c in codes])
+    key = conc(("/" if leading else "") + "/".join([COMP[c] for c in codes]))
     fstore = FileStore(ROOT)
     name = OPS[op]
     del fs.touched[:]
     try:
-        with quiet():
+        with nt(), quiet():      # the key text is concrete on this path (each component class was a solver decision)
             if via == "direct":
                 _do(fstore, name, key)
             elif via == "mount":
@@ -225,7 +225,7 @@ def ob_contained(codes: List[int], leading: bool, op: int) -> bool:
             else:
                 mp = MountPointStore(MemoryStore()).mount("m", fstore)
                 ctx = _Ctx(mp)
-                comps = ["m"] + ([""] if leading else []) + [COMP[c] for c in codes]
+                comps = ["m"] + ([""] if leading else []) + [conc(COMP[c]) for c in codes]
                 rq = ResourceQuerySegment(header=None, query=[ResourceName(c) for c in comps])
                 ctx.evaluate_resource(rq)
     except Exception:
